@@ -27,6 +27,12 @@ def run():
         kinds = set((r.get("exp"), r.get("hint", -1) >= 0, r.get("prio")) for r in h if r.get("e") == "run")
         nrec += sum(1 for r in h if r.get("e") in ("run", "runstd"))
         chk.add_case(h, nontrivial=len(kinds) >= 3)
+        for r in h:
+            if r.get("e") in ("end", "reset") and "runs" in r and r.get("runs") != r.get("expected"):
+                ids = [x.get("id") for x in h if x.get("e") == "run"]
+                dup = sorted(set(i for i in ids if ids.count(i) > 1))
+                chk.drift.append("a history executed %s callables for %s submissions (callable ids seen more than "
+                                 "once: %s); exactly-once execution is property C01, not C10" % (r.get("runs"), r.get("expected"), dup))
     chk.cov["placement_records"] = nrec
     for h, o in hist[:1]:
         chk.sample(h[:14])
